@@ -173,6 +173,11 @@ namespace bloch::runtime {
     void QasmSimulator::cx(int control, int target) {
         ensureQubitActive(control);
         ensureQubitActive(target);
+        if (control == target) {
+            throw BlochError(ErrorCategory::Runtime, 0, 0,
+                             "cx requires two distinct qubits, got q[" + std::to_string(control) +
+                                 "] twice");
+        }
         // Swap amplitudes where control is 1 and target is 0 to flip target,
         // iterating only the affected subspace to avoid per-index branching.
         int low = std::min(control, target);
